@@ -15,6 +15,12 @@ pub struct StringBlock {
 impl StringBlock {
     /// Parse a string block from a reader
     pub fn parse<R: Read + Seek>(reader: &mut R, offset: u64, size: u32) -> Result<Self> {
+        let end = reader.seek(SeekFrom::End(0))?;
+        if offset > end || u64::from(size) > end - offset {
+            return Err(Error::OutOfBounds(format!(
+                "String block of {size} bytes at offset {offset} exceeds the {end} bytes of data"
+            )));
+        }
         reader.seek(SeekFrom::Start(offset))?;
 
         let mut data = vec![0u8; size as usize];
